@@ -106,19 +106,28 @@ def run_case(case):
         given = [("X-P", ps)]
     elif pshape == 2:
         given = [("X-P", ps), ("X-Q", "b")]
-    else:
+    elif pshape == 3:
         given = [("X-O", "b"), ("X-P", ps)]
+    # list-valued parameters (the RFC's own multi-valued ones and an X- one): the items are joined with commas that are
+    # delimiters, each item quoted on its own
+    elif pshape == 4:
+        given = [("MEMBER", [ps, "b"])]
+    elif pshape == 5:
+        given = [("DELEGATED-TO", ["b", ps])]
+    else:
+        given = [("X-L", ["b", ps, "c"]), ("SENT-BY", "b")]
     fails = []
     outcomes = []
     P = Parameters()
     for k, v in given:
         # every other case hands the value over as a vText object (docs/usage does): same wire form as the plain string
-        P[k] = vText(v) if (len(ps) + len(str(s))) % 2 else v
-    intended_params = {k: v.replace('"', "'") for k, v in given}
+        P[k] = v if isinstance(v, list) else (vText(v) if (len(ps) + len(str(s))) % 2 else v)
+    intended_params = {k: norm_param([x.replace('"', "'") for x in v]) if isinstance(v, list) else v.replace('"', "'") for k, v in given}
     value = make_value(wrap, s)
     val_text = value.to_ical()
     val_text = val_text.decode("utf-8") if isinstance(val_text, bytes) else val_text
-    unrepresentable = any(not carriable_param(v) or "\n" in v for _k, v in given) or "\n" in val_text
+    items_of = lambda v: v if isinstance(v, list) else [v]  # noqa: E731
+    unrepresentable = any(not carriable_param(x) or "\n" in x for _k, v in given for x in items_of(v)) or "\n" in val_text
     # ---------------- level 1
     line = None
     try:
@@ -259,7 +268,7 @@ def run(ctx):
     ctx.rule = (f"E-enum, pairwise cut: (A) every parameter value over the 12-symbol alphabet, |s|<={k}, x 20 values x names "
                 f"(rotating) x parameter shapes (1, 2 with s first, 2 with s second); (B) 20 parameter values x every value "
                 f"string, |s|<={k}, as vText/vUri/vCalAddress/vInline; (C) all pairs with |s|,|t|<=2 x 4 wrappers; (D) typed "
-                "menu x 20 parameter values; (E) every TEXT/URI/CAL-ADDRESS property name of RFC 5545 x 11 values with delimiters x 4 parameter maps.  Each case: level 1 (from_parts/parts) and level 2 (VEVENT and strict VTODO "
+                "menu x 20 parameter values; (E) every TEXT/URI/CAL-ADDRESS property name of RFC 5545 x 11 values with delimiters x 4 parameter maps; (F) every string as one item of a list-valued MEMBER / DELEGATED-TO / X- parameter (first, last, middle).  Each case: level 1 (from_parts/parts) and level 2 (VEVENT and strict VTODO "
                 "round trip next to sentinels).  non-trivial = a delimiter/escape character occurs.")
     ctx.bounds = {"alphabet": [repr(c) for c in SIGMA], "k": k, "names": list(NAMES)}
     ctx.assumptions += ["a serialisation refusal is accepted only for content the format cannot carry (LF/CR/control "
@@ -292,6 +301,12 @@ def run(ctx):
             for w in WRAPS:
                 yield ("c", "X-A", 0, "", w, s)
 
+    def gen_lists():
+        for ps in allk:
+            for pshape in (4, 5, 6):
+                for name, v in (("X-A", "v"), ("ATTENDEE", "a,b;c")):
+                    yield ("c", name, pshape, ps, "vText", v)
+
     def gen_names():
         # (E) every property name whose value is free text / a URI / an address: no name may have its own idea of delimiters
         for name in STRING_NAMES:
@@ -301,3 +316,4 @@ def run(ctx):
 
     ctx.explore("join/split + tree", gen, run_case)
     ctx.explore("every string-valued property name", gen_names, run_case)
+    ctx.explore("list-valued parameters", gen_lists, run_case)
